@@ -95,3 +95,23 @@ func TestAllocSite(t *testing.T) {
 		t.Errorf("got %q", allocSigClass(c))
 	}
 }
+
+func TestImmMutate(t *testing.T) {
+	seeds := loadCorpus()
+	r := core.NewRng(1, 1)
+	kinds := map[string]int{}
+	for i := 0; i < 20000; i++ {
+		s := seeds[r.Intn(len(seeds))]
+		b, _, k, ok := ImmMutate(r, s.Bin, "")
+		if ok {
+			kinds[k]++
+			if w := Walk(b); w.Hdr && !w.Complete && Walk(s.Bin).Complete {
+				// over-long encodings beyond the limit make the instruction walk fail, the framing must stay intact
+				if w.FirstBadSec >= 0 {
+					t.Fatalf("framing broken by %s", k)
+				}
+			}
+		}
+	}
+	t.Logf("%d kinds: %v", len(kinds), kinds)
+}
